@@ -99,6 +99,8 @@ def same(a, b, rtol=1e-12):
         return bool(np.array_equal(a, b))
     if isinstance(a, float) or isinstance(b, float):
         try:
+            if a == b:      # covers equal infinities
+                return True
             return abs(a - b) <= rtol * max(abs(a), abs(b)) + 1e-300 or (a != a and b != b)
         except Exception:
             return False
